@@ -18,6 +18,9 @@ pub enum Front {
     /// raw::Builder where every other key is offered a second time through add() right after it was accepted: by the set rule
     /// a repeat is a no-op, so the result must be the one of a build without the repeats
     RawMixedRepeats,
+    /// MapBuilder that is offered every third key a second time with a SMALLER value (rejected as a duplicate) and the previous key
+    /// again (rejected as out of order) and carries on: rejected calls leave no trace
+    MapRejectedCalls,
     RawAdd,
     RawNewVec,
     RawExtendIter,
@@ -35,7 +38,8 @@ pub enum Front {
     SetFromIter,
 }
 
-pub const MAP_FRONTS: [Front; 13] = [
+pub const MAP_FRONTS: [Front; 14] = [
+    Front::MapRejectedCalls,
     Front::RawShortSink,
     Front::RawMixed,
     Front::RawMixedBulk,
@@ -142,6 +146,25 @@ pub fn build(front: Front, kv: &Kv) -> Result<Vec<u8>, String> {
                 } else {
                     e(b.insert(k, *v))?;
                 }
+            }
+            e(b.into_inner())
+        }
+        Front::MapRejectedCalls => {
+            let mut b = MapBuilder::memory();
+            let mut prev: Option<&Vec<u8>> = None;
+            for (i, (k, v)) in kv.iter().enumerate() {
+                e(b.insert(k, *v))?;
+                if i % 3 == 0 {
+                    if b.insert(k, *v / 2).is_ok() {
+                        return Err("a duplicate key was accepted".into());
+                    }
+                    if let Some(p) = prev {
+                        if b.insert(p, *v).is_ok() {
+                            return Err("an out-of-order key was accepted".into());
+                        }
+                    }
+                }
+                prev = Some(k);
             }
             e(b.into_inner())
         }
